@@ -666,6 +666,18 @@ def r04_16_tie_at_the_end_of_time(ctx: Ctx) -> RuleResult:
                 for t in [n.target] if isinstance(n, ast.AnnAssign) else n.targets:
                     if isinstance(t, ast.Name) and kind:
                         prev[t.id] = kind
+        # locals derived from one of the two previous transitions (its instant held in a temporary) stand for that transition
+        changed = True
+        while changed:
+            changed = False
+            for n in own_nodes(f.node):
+                if isinstance(n, (ast.Assign, ast.AnnAssign)) and getattr(n, "value", None) is not None and not isinstance(n.value, ast.Call):
+                    kinds = {prev[x.id] for x in ast.walk(n.value) if isinstance(x, ast.Name) and x.id in prev}
+                    if len(kinds) == 1:
+                        for t in [n.target] if isinstance(n, ast.AnnAssign) else n.targets:
+                            if isinstance(t, ast.Name) and t.id not in prev:
+                                prev[t.id] = next(iter(kinds))
+                                changed = True
         decided = False
         for n in own_nodes(f.node):
             if isinstance(n, ast.If):
